@@ -36,11 +36,20 @@ MANIFEST = {
 }
 
 
+_EXTRA = [None]
+
+
 def _decl(name, ty, lo, hi, default=None):
-    return {'name': name, 'type': TypeRef(ty), 'min': lo, 'max': hi, 'default': default}
+    # a declaration is a dict that may carry further keys ('step', a description ...): the decoder's result must not depend on them
+    d = {'name': name, 'type': TypeRef(ty), 'min': lo, 'max': hi, 'default': default}
+    if _EXTRA[0] is not None:
+        d['step'] = _EXTRA[0].real(f'step_{name}', 0)
+        d['description'] = 'free text'
+    return d
 
 
 def t_float(h):
+    _EXTRA[0] = h
     lo, hi = h.real('lo'), h.real('hi')
     h.assume(ops.compare('<', lo, hi))
     g = h.int('g', K.FIRST, K.LAST)
@@ -61,6 +70,7 @@ def t_float(h):
 
 
 def t_int(h):
+    _EXTRA[0] = h
     lo, hi = h.int('lo'), h.int('hi')
     h.assume(ops.compare('<', lo, hi))
     g = h.int('g', K.FIRST, K.LAST)
@@ -82,6 +92,7 @@ def t_int(h):
 
 def t_independent(h):
     """three declarations, three genes: each value is decode(declaration_k, gene_k)"""
+    _EXTRA[0] = h
     decls = []
     genes = []
     for k, ty in enumerate(['float', 'int', 'float']):
